@@ -21,9 +21,9 @@ import (
 func init() {
 	core.Register(&core.Prop{
 		ID: "C01", Level: "exploration",
-		Rule: "cases are histories of 5-80 inbound events (application messages, Heartbeat, TestRequest, ResendRequest, SequenceReset gap-fill/reset with NewSeqNo below/at/above the expected number, Logout, in-session Logon with/without 141=Y, Reject) x MsgSeqNum below/at/above expected x PossDup absent/Y/N x OrigSendingTime absent/earlier/later, with a peer that partly answers the engine's ResendRequests, for both roles, FIX.4.0-4.4 and FIXT.1.1, ResendRequestChunkSize in {0,1,2,3,7}, with and without dictionary; plus all histories of length<=4 over a 9-symbol relative alphabet; non-trivial = history with a FromApp delivery and an out-of-order arrival; distinct by the sequence of (event class, relation to expected, resulting state)",
+		Rule:        "cases are histories of 5-80 inbound events (application messages, Heartbeat, TestRequest, ResendRequest, SequenceReset gap-fill/reset with NewSeqNo below/at/above the expected number, Logout, in-session Logon with/without 141=Y, Reject) x MsgSeqNum below/at/above expected x PossDup absent/Y/N x OrigSendingTime absent/earlier/later, with a peer that partly answers the engine's ResendRequests, for both roles, FIX.4.0-4.4 and FIXT.1.1, ResendRequestChunkSize in {0,1,2,3,7}, with and without dictionary; plus all histories of length<=4 over a 9-symbol relative alphabet; non-trivial = history with a FromApp delivery and an out-of-order arrival; distinct by the sequence of (event class, relation to expected, resulting state)",
 		Assumptions: []string{"the application never returns reject reasons 9/10 (the engine treats those as identity/time failures that log out without consuming the number)", "explicit user actions on the store (SetNextTargetMsgSeqNum through the registry, Refresh against a modified store) are outside the quantifier"},
-		FloorQuick: 200, FloorThorough: 2000,
+		FloorQuick:  200, FloorThorough: 2000,
 		Parts: []core.Part{{Name: "histories", Run: run, Replay: replay}},
 	})
 }
